@@ -1008,8 +1008,7 @@ class Event:
             file.write(f'{indent} param2 "{escape_text(self.parameters[1])}"\n')
         if self.parameters[2]:
             file.write(f'{indent} param3 "{escape_text(self.parameters[2])}"\n')
-        if self.ramp.ramp:
-            self.ramp.export_text(file, indent, 'event_ramp')
+        self.ramp.export_text(file, indent, 'event_ramp')
         if self.pitch:
             file.write(f'{indent} pitch "{self.pitch}"\n')
         if self.yaw:
